@@ -257,6 +257,30 @@ def initTrial {ε : Type} (K : Nat) (evs : List ε) (sel : Option (Method ε))
     | some (evs2, P2) =>
       some { events := evs2, pairs := incTable K evs2.length P2 }
 
+/-! ### `np.argsort` of the index field -/
+
+section argsort
+variable {F : Type} [LE F] [DecidableLE F]
+
+/-- non-decreasing -/
+def sortedB : List F → Bool
+  | a :: b :: rest => decide (a ≤ b) && sortedB (b :: rest)
+  | _ => true
+
+/-- `np.argsort(keys, kind='stable')`: positions ordered by key, ties in original order -/
+def argsortStable (keys : List F) : List Nat :=
+  ((keys.zipIdx).mergeSort (fun a b => decide (a.1 ≤ b.1))).map Prod.snd
+
+/-- `σ` is an admissible result of `np.argsort(keys)` of *any* kind (the code uses the default,
+unstable one): a permutation of the positions `0..n-1` that lists the keys in non-decreasing order -/
+def isArgsort (keys : List F) (σ : List Nat) : Bool :=
+  decide (σ.mergeSort (fun a b => decide (a ≤ b)) = List.range keys.length) &&
+    match take keys σ with
+    | none => false
+    | some ks => sortedB ks
+
+end argsort
+
 /-! ### the manager object over a history of `initialize_trial` calls -/
 
 /-- the two members of a `TrialDataManager` that C05 is about: `_events`, `_src_evt_idxs` -/
@@ -369,16 +393,24 @@ inductive EsmOp (S : Type) where
   | mutate (id : Nat) (srcs : List S)
   /-- `obj.change_shg_mgr(manager id)` -/
   | change (id : Nat)
+  /-- a `change_shg_mgr` call the object rejects (argument not a manager; PsiFunc: not exactly one
+  source): the argument is checked before anything is assigned, so nothing changes -/
+  | reject
 
 def esmStep {S : Type} (earlyReturn : Bool) (w : EsmWorld S) : EsmOp S → EsmWorld S
   | .mutate id srcs => { w with mgrs := fun j => if j = id then srcs else w.mgrs j }
   | .change id => { w with obj := w.obj.changeShgMgr earlyReturn id (w.mgrs id) }
+  | .reject => w
 
 def esmRun {S : Type} (earlyReturn : Bool) (w : EsmWorld S) (ops : List (EsmOp S)) : EsmWorld S :=
   ops.foldl (esmStep earlyReturn) w
 
 /-- `select_events` of a method object: the method built from the *cached* source array -/
 def esmSelect {S ε : Type} (mk : List S → Method ε) (w : EsmWorld S) : Method ε := mk w.obj.srcArr
+
+/-- the same call as it was before the fix "check the argument first": manager stored and source array
+dropped before the check (`none` = no source array: every later select fails) -/
+def EsmObj.rejectUnfixed {S : Type} (_self : EsmObj S) : Option (List S) := none
 
 /-- `IntersectionEventSelectionMethod.change_shg_mgr`: both sub-methods (`both` = fact about the source) -/
 def chainChange {S : Type} (earlyReturn both : Bool) (o : EsmObj S × EsmObj S) (id : Nat) (srcs : List S) :
